@@ -307,3 +307,192 @@ def dist_c11(cases, results):
         if tr and tr[0][2] == "E":
             d["ended_first_poll"] += 1
     return d
+
+
+# ============================================================================== C13
+# A C13 case:
+#  {"k":"c13","mode":"inc","sem":"set"|"multi","pre":[[[k,v],..],[[k,v],..]],
+#   "ins":[{"s":[[k,v]|"P",...]},{"s":[...]}],"extra":n}
+#  {"k":"c13","mode":"ticks","sem":..,"persist":[b,b],"ticks":[[{"s":..},{"s":..}],...]}
+
+
+def g_kv(x):
+    return "(%d, %d)" % (x[0], x[1])
+
+
+def g_kvscript(s):
+    out = []
+    for x in s:
+        out.append("Pend" if x == "P" else "End" if x == "E" else "Rdy %s" % g_kv(x))
+    return "[" + "; ".join(out) + "]"
+
+
+def g_kvlist(l):
+    return "[" + "; ".join(g_kv(x) for x in l) + "]"
+
+
+def g_sem(s):
+    return "SetSem" if s == "set" else "MultiSem"
+
+
+def g_jcase(c):
+    if c["mode"] == "inc":
+        pre = c.get("pre") or [[], []]
+        return "(JInc %s %s %s %s %s)" % (g_sem(c["sem"]), g_kvlist(pre[0]), g_kvlist(pre[1]),
+                                          g_kvscript(c["ins"][0]["s"]), g_kvscript(c["ins"][1]["s"]))
+    ticks = "; ".join("(%s, %s)" % (g_kvscript(t[0]["s"]), g_kvscript(t[1]["s"])) for t in c["ticks"])
+    return "(JTicks %s %s %s [%s])" % (g_sem(c["sem"]), "true" if c["persist"][0] else "false",
+                                       "true" if c["persist"][1] else "false", ticks)
+
+
+def g_row(r):
+    return "(%d, (%d, %d))" % (r[0], r[1], r[2])
+
+
+def g_jobs(c, res):
+    if c["mode"] == "inc":
+        tr = []
+        for lo, hi, st in res["trace"]:
+            h = "(%d, %s)" % (lo, "None" if hi is None else "Some %d" % hi)
+            if st == "P":
+                s = "Pending"
+            elif st == "E":
+                s = "Ended"
+            else:
+                v = st[1]  # ["p", k, ["p", v1, v2]]
+                s = "Ready %s" % g_row([v[1], v[2][1], v[2][2]])
+            tr.append("(%s, %s)" % (h, s))
+        t1, t2 = res["tables"]
+        return "(JObs [%s] %s %d %s %d [])" % ("; ".join(tr), g_kvlist(t1["rows"]), t1["len"],
+                                               g_kvlist(t2["rows"]), t2["len"])
+    ticks = []
+    for t in res["ticks"]:
+        ticks.append("([%s], (%d, %d))" % ("; ".join(g_row(r) for r in t["rows"]), t["lens"][0], t["lens"][1]))
+    return "(JObs [] [] 0 [] 0 [%s])" % "; ".join(ticks)
+
+
+def c13_term(case, res):
+    if (case["mode"] == "inc" and "trace" not in res) or (case["mode"] == "ticks" and "ticks" not in res):
+        return 3
+    return "jchk %s %s" % (g_jcase(case), g_jobs(case, res))
+
+
+def rand_kvscript(rng, maxn, nk, nv, pend_num):
+    s = []
+    for _ in range(rng.range(0, maxn)):
+        s.append([rng.below(nk), rng.below(nv)])
+    for _ in range(pend_num):
+        s.insert(rng.below(len(s) + 1), "P")
+    return s
+
+
+def rand_c13(rng):
+    sem = rng.choice(["set", "multi"])
+    nk, nv = rng.choice([(3, 3), (3, 3), (2, 2), (1, 3), (5, 2)])
+    if rng.chance(7, 10):
+        pre = None
+        if rng.chance(3, 10):
+            pre = [[[rng.below(nk), rng.below(nv)] for _ in range(rng.below(4))] for _ in range(2)]
+        c = {"k": "c13", "mode": "inc", "sem": sem,
+             "ins": [{"s": rand_kvscript(rng, rng.choice([4, 8, 12]), nk, nv, rng.below(4))} for _ in range(2)],
+             "extra": rng.range(1, 3)}
+        if pre is not None:
+            c["pre"] = pre
+        return c
+    nt = rng.range(1, 4)
+    return {"k": "c13", "mode": "ticks", "sem": sem, "persist": [rng.chance(1, 2), rng.chance(1, 2)],
+            "ticks": [[{"s": rand_kvscript(rng, 6, nk, nv, rng.below(3))} for _ in range(2)] for _ in range(nt)]}
+
+
+def exhaustive_c13():
+    """both semantics x every pair of arrival sequences of length <= 2 over 2 keys x 2 values
+    x every placement of <= 1 Pend per side"""
+    dom = [[k, v] for k in range(2) for v in range(2)]
+    side = []
+    for n in range(3):
+        for seq in itertools.product(dom, repeat=n):
+            for k in range(2):
+                side += list(placements(list(seq), k))
+    cases = []
+    for sem in ("set", "multi"):
+        for a in side:
+            for b in side:
+                cases.append({"k": "c13", "mode": "inc", "sem": sem, "ins": [{"s": a}, {"s": b}], "extra": 1})
+    return cases
+
+
+def gen_c13(rng, tier, n, corpus=()):
+    cases = list(corpus)
+    if tier == "thorough":
+        cases += exhaustive_c13()
+    cases += [rand_c13(rng) for _ in range(n)]
+    return cases
+
+
+def shrink_c13(case):
+    def scripts(c):
+        if c["mode"] == "inc":
+            return [("ins", i) for i in range(2)]
+        return [("ticks", t, i) for t in range(len(c["ticks"])) for i in range(2)]
+
+    def get(c, path):
+        return c["ins"][path[1]]["s"] if path[0] == "ins" else c["ticks"][path[1]][path[2]]["s"]
+
+    def put(c, path, s):
+        import copy
+        d = copy.deepcopy(c)
+        if path[0] == "ins":
+            d["ins"][path[1]]["s"] = s
+        else:
+            d["ticks"][path[1]][path[2]]["s"] = s
+        return d
+
+    if case["mode"] == "ticks" and len(case["ticks"]) > 1:
+        for t in range(len(case["ticks"])):
+            yield dict(case, ticks=case["ticks"][:t] + case["ticks"][t + 1:])
+    if case.get("pre"):
+        yield {k: v for k, v in case.items() if k != "pre"}
+    for path in scripts(case):
+        s = get(case, path)
+        for j in range(len(s)):
+            yield put(case, path, s[:j] + s[j + 1:])
+    for path in scripts(case):
+        s = get(case, path)
+        for j, x in enumerate(s):
+            if isinstance(x, list):
+                for y in ([0, x[1]], [x[0], 0]):
+                    if y != x:
+                        yield put(case, path, s[:j] + [y] + s[j + 1:])
+
+
+def dist_c13(cases, results):
+    d = {"mode": {}, "sem": {}, "arrivals_per_side": {"0": 0, "1-2": 0, "3-4": 0, "5-8": 0, "9+": 0},
+         "pends_per_side": {}, "preloaded": 0, "ticks_per_case": {}, "persist": {},
+         "emitted_rows_total": 0, "cases_with_duplicate_arrivals": 0, "pending_surfaced": 0}
+    for c, r in zip(cases, results):
+        d["mode"][c["mode"]] = d["mode"].get(c["mode"], 0) + 1
+        d["sem"][c["sem"]] = d["sem"].get(c["sem"], 0) + 1
+        sides = c["ins"] if c["mode"] == "inc" else [x for t in c["ticks"] for x in t]
+        dup = False
+        for sd in sides:
+            arr = [tuple(x) for x in sd["s"] if isinstance(x, list)]
+            n = len(arr)
+            b = "0" if n == 0 else "1-2" if n <= 2 else "3-4" if n <= 4 else "5-8" if n <= 8 else "9+"
+            d["arrivals_per_side"][b] += 1
+            k = str(sum(1 for x in sd["s"] if x == "P"))
+            d["pends_per_side"][k] = d["pends_per_side"].get(k, 0) + 1
+            dup = dup or len(set(arr)) < n
+        d["cases_with_duplicate_arrivals"] += 1 if dup else 0
+        if c.get("pre"):
+            d["preloaded"] += 1
+        if c["mode"] == "ticks":
+            k = str(len(c["ticks"]))
+            d["ticks_per_case"][k] = d["ticks_per_case"].get(k, 0) + 1
+            k = "%s/%s" % tuple("static" if p else "tick" for p in c["persist"])
+            d["persist"][k] = d["persist"].get(k, 0) + 1
+            d["emitted_rows_total"] += sum(len(t["rows"]) for t in r.get("ticks", []))
+        else:
+            tr = r.get("trace", [])
+            d["emitted_rows_total"] += sum(1 for x in tr if isinstance(x[2], list))
+            d["pending_surfaced"] += sum(1 for x in tr if x[2] == "P")
+    return d
